@@ -181,6 +181,16 @@ func propertyFailsL(prop, op, res, lean string) (why string) {
 				}
 			}
 		}
+		if base == "dec" && kind == "CCFB" && hasPrefix(res, "ok ") {
+			if w := ccfbDecOracle(NewR(args).H(), res[3:]); w != "" {
+				return w
+			}
+		}
+		if base == "dec" && kind == "XR" && hasPrefix(res, "ok ") {
+			if w := xrDecOracle(NewR(args).H(), res[3:]); w != "" {
+				return w
+			}
+		}
 		if base == "reuse" && isOK {
 			if f := fieldsOf(args); len(f) == 2 {
 				if fresh := execOp("dec." + kind + " " + f[1]); hasPrefix(fresh, "ok") && fresh != res {
@@ -251,6 +261,15 @@ func propertyFailsL(prop, op, res, lean string) (why string) {
 				}
 			}
 		}
+		if base == "len" && isOK {
+			p := getBody(NewR(args), kind)
+			if kind == "TWCC" && !twccConsistent(p.(*rtcp.TransportLayerCC)) {
+				return ""
+			}
+			if b, err := safeMarshal(p); err == nil && res != fmt.Sprintf("ok %d", len(b)) {
+				return fmt.Sprintf("Len() reports %s, Marshal produces %d octets", res[3:], len(b))
+			}
+		}
 		if base == "csize" && isOK {
 			ps := getPackets(NewR(args))
 			sum := 0
@@ -311,6 +330,13 @@ func propertyFailsL(prop, op, res, lean string) (why string) {
 			if n := countFrames(b); n != len(ps) {
 				return fmt.Sprintf("%d frames but %d packets", n, len(ps))
 			}
+			for off := 0; off < len(b); {
+				l := (int(b[off+2])<<8 | int(b[off+3]) + 1) * 4
+				if k := dispatchKind(b[off:]); k != "RAW" && k != "SLI" && execOp("dec."+k+" "+hx(b[off:off+l])) == "err" {
+					return "a frame that its own type's decoder rejects is accepted inside a datagram"
+				}
+				off += l
+			}
 		}
 	case "C07":
 		if base == "dec" && isOK && kind != "RAW" && kind != "COMPOUND" {
@@ -324,6 +350,9 @@ func propertyFailsL(prop, op, res, lean string) (why string) {
 		}
 		if base == "rt" {
 			return rtOracle(args, res, true)
+		}
+		if base == "relay" && hasPrefix(res, "mutated") {
+			return "re-marshalling decoded packets altered a RawPacket (it no longer holds its frame verbatim): " + res
 		}
 		if base == "udec" && isOK {
 			b := NewR(args).H()
@@ -398,6 +427,9 @@ func propertyFailsL(prop, op, res, lean string) (why string) {
 			}
 		}
 	case "C10":
+		if base == "dst2" && hasPrefix(res, "mutated") {
+			return res
+		}
 		if base == "dst" && isOK {
 			p := getBody(NewR(args), kind)
 			if dstLine(specDest(p)) != res {
